@@ -1,13 +1,6 @@
-import Driver.Util
-import Driver.Trie
+import Driver.Families
 /-! One JSON case per line in, one JSON result per line out. -/
 open Lean Driver
-
-def dispatch (c : Json) : E Json := do
-  let fam ← str c "fam"
-  match fam with
-  | "trie" => Driver.Trie.run c
-  | _ => throw s!"unknown family {fam}"
 
 partial def loop (hin hout : IO.FS.Stream) : IO Unit := do
   let line ← hin.getLine
